@@ -67,3 +67,15 @@ func verifShape(t *ImmutableTree, n *Node, sb *strings.Builder) (height int8, si
 	}
 	return h, ls + rs, lmin, rmax, err
 }
+
+// VerifSetBaseVersion makes an empty, never-saved store continue from the given version, so that a
+// verification chain can start at a mainnet-like height without executing the blocks below it.
+func (st *Store) VerifSetBaseVersion(v int64) {
+	t, ok := st.tree.(*MutableTree)
+	if !ok || t.root != nil || len(t.versions) != 0 {
+		panic("VerifSetBaseVersion: store is not empty")
+	}
+	t.ImmutableTree.version = v
+	t.lastSaved.version = v
+	t.ndb.latestVersion = v
+}
